@@ -120,17 +120,24 @@ theorem elabField_equiv (O : Oracles) (f₁ f₂ : Bool) {a b : FieldSp} (h : Fi
 /-- Class level: any mix of equivalent spellings across the fields of one class gives the same class
     statement outcome. -/
 theorem elabClass_equiv (O : Oracles) {c₁ c₂ : ClassSp} (h : ClassSame c₁.fields c₂.fields)
+    (hr : c₁.required = c₂.required)
     (h₁ : classSupported O tm c₁ = true) (h₂ : classSupported O tm c₂ = true) :
     elabClass O tm c₁ = elabClass O tm c₂ := by
-  simp only [elabClass, elabFields_same O c₁.scope c₂.scope c₁.future c₂.future h h₁ h₂]
+  simp only [elabClass, elabFields_same O c₁.scope c₂.scope c₁.future c₂.future h h₁ h₂, hr]
+  cases he : elabFields O tm c₂.scope c₂.future c₂.fields with
+  | error e => rfl
+  | ok rs =>
+    simp only [bindE_ok]
+    exact finishClass_opt_irrelevant _ _ _ rs (elabFields_allField O c₂.scope c₂.future c₂.fields rs h₂ he)
 
 /-- Corollary: same field set (with the same Field per name), same `_required`, same defaults. -/
 theorem same_fields_and_required (O : Oracles) {c₁ c₂ : ClassSp} (h : ClassSame c₁.fields c₂.fields)
+    (hr : c₁.required = c₂.required)
     (h₁ : classSupported O tm c₁ = true) (h₂ : classSupported O tm c₂ = true)
     {o₁ o₂ : ClassOpts} {fs₁ fs₂ : List (String × FieldDecl)} {ds₁ ds₂ : List (String × PyVal)}
     (e₁ : elabClass O tm c₁ = .ok (.struct o₁ fs₁ ds₁)) (e₂ : elabClass O tm c₂ = .ok (.struct o₂ fs₂ ds₂)) :
     fs₁ = fs₂ ∧ o₁.required = o₂.required ∧ ds₁ = ds₂ := by
-  rw [elabClass_equiv O h h₁ h₂, e₂] at e₁
+  rw [elabClass_equiv O h hr h₁ h₂, e₂] at e₁
   injection e₁ with e
   injection e with eo ef ed
   subst eo ef ed
@@ -145,9 +152,10 @@ def classBehaviour (O : Oracles) (c : ClassSp) (kw : List (String × PyVal)) : R
 /-- Corollary: equivalent class bodies accept, reject (same exception class) and normalise every
     keyword-argument list identically. -/
 theorem same_behaviour (O : Oracles) {c₁ c₂ : ClassSp} (h : ClassSame c₁.fields c₂.fields)
+    (hr : c₁.required = c₂.required)
     (h₁ : classSupported O tm c₁ = true) (h₂ : classSupported O tm c₂ = true)
     (kw : List (String × PyVal)) : classBehaviour O c₁ kw = classBehaviour O c₂ kw := by
-  simp only [classBehaviour, elabClass_equiv O h h₁ h₂]
+  simp only [classBehaviour, elabClass_equiv O h hr h₁ h₂]
 
 /-! ### "behaviourally identical" as theorems: every operation of the other models is a function of the
     class declaration, so equal declarations give equal results (one congruence theorem per operation) -/
@@ -159,9 +167,10 @@ def observe {α : Type} (O : Oracles) (c : ClassSp) (obs : FieldDecl → R α) :
 /-- Congruence, once and for all: equivalent class bodies agree on EVERY observation that is a function of the
     class the statement creates (constructor, serializer, deserializer, schema export, …). -/
 theorem same_observation {α : Type} (O : Oracles) {c₁ c₂ : ClassSp} (h : ClassSame c₁.fields c₂.fields)
+    (hr : c₁.required = c₂.required)
     (h₁ : classSupported O tm c₁ = true) (h₂ : classSupported O tm c₂ = true) (obs : FieldDecl → R α) :
     observe O c₁ obs = observe O c₂ obs := by
-  simp only [observe, elabClass_equiv O h h₁ h₂]
+  simp only [observe, elabClass_equiv O h hr h₁ h₂]
 
 /-- `Serializer(K(**kw)).serialize()` (`Sem/Serde.serialize` after `Sem/Validate.construct`) -/
 def classSerialize (O : Oracles) (c : ClassSp) (kw : List (String × PyVal)) : R PyVal :=
@@ -177,21 +186,24 @@ def classSchema (O : Oracles) (c : ClassSp) : R (PyVal × Sch.Defs) :=
 
 /-- Equivalent class bodies serialize every constructed instance identically. -/
 theorem same_serialize (O : Oracles) {c₁ c₂ : ClassSp} (h : ClassSame c₁.fields c₂.fields)
+    (hr : c₁.required = c₂.required)
     (h₁ : classSupported O tm c₁ = true) (h₂ : classSupported O tm c₂ = true)
     (kw : List (String × PyVal)) : classSerialize O c₁ kw = classSerialize O c₂ kw :=
-  same_observation O h h₁ h₂ _
+  same_observation O h hr h₁ h₂ _
 
 /-- Equivalent class bodies deserialize every document identically (same instance or same exception class). -/
 theorem same_deserialize (O : Oracles) (opts : DeserOpts) {c₁ c₂ : ClassSp} (h : ClassSame c₁.fields c₂.fields)
+    (hr : c₁.required = c₂.required)
     (h₁ : classSupported O tm c₁ = true) (h₂ : classSupported O tm c₂ = true)
     (doc : PyVal) : classDeserialize O opts c₁ doc = classDeserialize O opts c₂ doc :=
-  same_observation O h h₁ h₂ _
+  same_observation O h hr h₁ h₂ _
 
 /-- Equivalent class bodies export the same JSON schema and definitions. -/
 theorem same_schema (O : Oracles) {c₁ c₂ : ClassSp} (h : ClassSame c₁.fields c₂.fields)
+    (hr : c₁.required = c₂.required)
     (h₁ : classSupported O tm c₁ = true) (h₂ : classSupported O tm c₂ = true) :
     classSchema O c₁ = classSchema O c₂ :=
-  same_observation O h h₁ h₂ _
+  same_observation O h hr h₁ h₂ _
 
 /-! ### the full statement, and what is proved of it -/
 
@@ -202,7 +214,7 @@ def fieldNames (r : R FieldDecl) : Option (List String × List String) :=
 
 /-- C13 at full strength, over the documented spellings -/
 def C13_statement : Prop :=
-  ∀ (O : Oracles) (c₁ c₂ : ClassSp), ClassSame c₁.fields c₂.fields →
+  ∀ (O : Oracles) (c₁ c₂ : ClassSp), ClassSame c₁.fields c₂.fields → c₁.required = c₂.required →
     c₁.fields.all documentedField = true → c₂.fields.all documentedField = true →
     fieldNames (elabClass O tm c₁) = fieldNames (elabClass O tm c₂)
     ∧ ∀ kw, classBehaviour O c₁ kw = classBehaviour O c₂ kw
@@ -210,10 +222,11 @@ def C13_statement : Prop :=
 /-- What holds: the statement restricted to the supported region (`classSupported` excludes exactly
     the known-finding regions and typing's own flattening / de-duplication of unions). -/
 theorem statement_partial (O : Oracles) (c₁ c₂ : ClassSp) (h : ClassSame c₁.fields c₂.fields)
+    (hr : c₁.required = c₂.required)
     (h₁ : classSupported O tm c₁ = true) (h₂ : classSupported O tm c₂ = true) :
     fieldNames (elabClass O tm c₁) = fieldNames (elabClass O tm c₂)
     ∧ ∀ kw, classBehaviour O c₁ kw = classBehaviour O c₂ kw :=
-  ⟨by rw [elabClass_equiv O h h₁ h₂], same_behaviour O h h₁ h₂⟩
+  ⟨by rw [elabClass_equiv O h hr h₁ h₂], same_behaviour O h hr h₁ h₂⟩
 
 /-! ### former findings (now theorems) and counterexamples for the open ones, checked by the kernel -/
 
@@ -313,7 +326,7 @@ theorem statement_false : ¬ C13_statement := by
   intro h
   have := (h noRe { future := false, fields := [annF fStr (.eq (.int 0) 1)] }
     { future := false, fields := [annF (.finst .str) (.kw (.int 0) 1)] }
-    (ClassSame.cons counterexample_falsy_default_kw.1 ClassSame.nil) rfl rfl).1
+    (ClassSame.cons counterexample_falsy_default_kw.1 ClassSame.nil) rfl rfl rfl).1
   revert this
   decide
 
@@ -421,8 +434,8 @@ theorem scope_irrelevant (O : Oracles) (future : Bool) (fs : FieldSp) :
     ∧ elabFieldAt .nested O tm future fs = elabFieldAt .module O tm future fs := by
   simp [elabFieldAt]
 
-/-- Inside the supported region a string annotation (future import, or quoted and short) in any non-enclosing
-    scope elaborates like the evaluated annotation at module level. -/
+/-- Inside the supported region a string annotation (future import, quoted, or both; of any length) in any
+    non-enclosing scope elaborates like the evaluated annotation at module level. -/
 theorem string_annotation_equiv (O : Oracles) (sc : Scope) (future : Bool) (fs : FieldSp)
     (h : fieldSupportedAt O tm sc future fs = true) :
     elabFieldAt sc O tm future fs = elabField O tm false { fs with quoted := false } := by
@@ -433,22 +446,24 @@ theorem string_annotation_equiv (O : Oracles) (sc : Scope) (future : Bool) (fs :
 /-- the class `a: "Integer"` in a module with the future import, and `a: "<54 characters>"` without it -/
 def quotedInt : FieldSp := { name := "a", mode := .ann, ty := fInt, quoted := true }
 
-/-- finding `field-dropped:quoted-under-future-import` — `a: "Integer"` declares a field, but in a module with
-    `from __future__ import annotations` the stored text is that of a string literal, which evaluates to a `str`
-    again: no field is declared. -/
-theorem counterexample_quoted_future :
+/-- former finding `field-dropped:quoted-under-future-import` (fixed in typedpy b6495fe) — `a: "Integer"` declares the
+    same field with and without `from __future__ import annotations` (the stored text of the string literal is
+    evaluated twice). -/
+theorem fixed_quoted_future :
     elabFieldAt .module noRe tm false quotedInt = .ok (.field (.integer {}) true none)
-    ∧ elabFieldAt .module noRe tm true quotedInt = .ok .dropped
-    ∧ elabFieldAt .module noRe tm true (annF fInt) = .ok (.field (.integer {}) true none) :=
-  ⟨rfl, rfl, rfl⟩
+    ∧ elabFieldAt .module noRe tm true quotedInt = .ok (.field (.integer {}) true none)
+    ∧ elabFieldAt .module noRe tm true (annF fInt) = .ok (.field (.integer {}) true none)
+    ∧ fieldSupportedAt noRe tm .nested true quotedInt = true :=
+  ⟨rfl, rfl, rfl, rfl⟩
 
-/-- finding `field-dropped:quoted-annotation-50` — a quoted annotation of 50 or more characters (no future
-    import) is never evaluated and declares nothing. -/
-theorem counterexample_quoted_50 :
-    elabFieldAt .module noRe tm false { quotedInt with ty := longSp } = .ok .dropped
+/-- former finding `field-dropped:quoted-annotation-50` (fixed in typedpy b6495fe) — a quoted annotation of 50 or more
+    characters (no future import) is evaluated like any other and declares its field. -/
+theorem fixed_quoted_50 :
+    annLenField { quotedInt with ty := longSp } = 54
+    ∧ elabFieldAt .module noRe tm false { quotedInt with ty := longSp } = elabFieldAt .module noRe tm true (annF longSp)
     ∧ elabFieldAt .module noRe tm false (annF longSp) = elabFieldAt .module noRe tm true (annF longSp)
     ∧ elabFieldAt .module noRe tm true (annF longSp) ≠ .ok .dropped := by
-  refine ⟨rfl, rfl, ?_⟩
+  refine ⟨rfl, rfl, rfl, ?_⟩
   intro h
   cases h
 
@@ -486,9 +501,10 @@ theorem tuple_single_equiv :
 
 /-! ### typing's own rewriting of unions: flattening (and, below, de-duplication) -/
 
-/-- Directly nested `Union[…]` / `Optional[…]` (which `typing` flattens - documented: "unions of unions are flattened"):
-    a tree of them over supported, pairwise distinct leaves elaborates to the AnyOf of the FLATTENED documented
-    alternatives (`Spec/Meaning.flatAlts`), through the model's `mkUnion` (= typing's flatten + de-duplicate).
+/-- Directly nested `Union[…]` / `Optional[…]` / PEP 604 `|` between non-field operands - plain types, `None`, Field
+    classes AND typing objects (`List[int] | None`, `int | Optional[str]`) - which `typing` / Python flatten (documented:
+    "unions of unions are flattened"): a tree of them over supported, pairwise distinct leaves (operand kinds as Python's
+    `|` requires: `Spec/Meaning.pipeKind`) elaborates to the AnyOf of the FLATTENED documented alternatives (`Spec/Meaning.flatAlts`), through the model's `mkUnion` (= typing's flatten + de-duplicate).
     Structural induction over the tree (`Lemmas/ElabFlat`): no depth bound. -/
 theorem elaborate_flatten (s : Sp) (ht : isUnionTree s = true) (hl : leavesOk tm s = true)
     (hd : allDistinct (flatObjs tm s) = true) :
@@ -510,15 +526,32 @@ theorem elabField_flatten (O : Oracles) (future : Bool) (name : String) (inOpt :
     (ht : isUnionTree s = true) (hl : leavesOk tm s = true) (hd : allDistinct (flatObjs tm s) = true) :
     elabField O tm future { name := name, mode := .ann, ty := s, inOptional := inOpt }
       = .ok (.field (.anyOf (flatAlts s)) (!((flatAlts s).any isNoneF || inOpt)) none) := by
-  simp [elabField, evTop, ev_flatten s ht hl hd, annField, isFieldObj, isSclsObj, gtli_flatten s hl hd, afterGtli,
-    finishField, hasNoneOpt]
+  simp [elabField, evTop, ev_flatten s ht hl hd, annField, isFieldObj_treeObj, isSclsObj_treeObj, gtli_flatten s hl hd,
+    afterGtli, finishField, hasNoneOpt]
 
-/-- non-vacuity: `Union[Union[int, None], str]`, `Union[int, Union[None, str]]` and `Union[Optional[int], str]`
-    are union trees over distinct supported leaves with the same flattened alternatives [Integer, None, String]. -/
+/-- non-vacuity: `Union[Union[int, None], str]`, `Union[int, Union[None, str]]`, `Union[Optional[int], str]`, the PEP 604
+    chain `int | None | str`, `int | (None | str)` and the mixed `Optional[int] | str` / `List[int] | None` (a `|` with a
+    typing object) are union trees over distinct supported leaves; the first six have the same flattened alternatives
+    [Integer, None, String]. -/
 theorem flatten_example :
     let s₁ : Sp := .union (.union (.builtin .int) .noneLit) (.builtin .str)
     let s₂ : Sp := .union (.builtin .int) (.union .noneLit fStr)
     let s₃ : Sp := .union (.optional (.finst .int)) (.builtin .str)
+    let s₄ : Sp := .pipe (.pipe (.builtin .int) .noneLit) (.builtin .str)
+    let s₅ : Sp := .pipe (.builtin .int) (.pipe .noneLit (.builtin .str))
+    let s₆ : Sp := .pipe (.optional (.builtin .int)) (.builtin .str)
+    let s₇ : Sp := .pipe (.typingG .list (.builtin .int)) .noneLit
+    isUnionTree s₄ = true ∧ leavesOk tm s₄ = true ∧ allDistinct (flatObjs tm s₄) = true
+    ∧ isUnionTree s₅ = true ∧ leavesOk tm s₅ = true ∧ allDistinct (flatObjs tm s₅) = true
+    ∧ isUnionTree s₆ = true ∧ leavesOk tm s₆ = true ∧ allDistinct (flatObjs tm s₆) = true
+    ∧ isUnionTree s₇ = true ∧ leavesOk tm s₇ = true ∧ allDistinct (flatObjs tm s₇) = true
+    ∧ supported tm s₆ = false ∧ supported tm s₇ = false
+    ∧ flatAlts s₄ = flatAlts s₁ ∧ flatAlts s₅ = flatAlts s₁ ∧ flatAlts s₆ = flatAlts s₁
+    ∧ elabField noRe tm true (annF s₄) = elabField noRe tm false (annF s₁)
+    ∧ elabField noRe tm true (annF s₅) = elabField noRe tm false (annF s₁)
+    ∧ elabField noRe tm true (annF s₆) = elabField noRe tm false (annF s₁)
+    ∧ elabField noRe tm true (annF s₇) = .ok (.field (.anyOf [.seqOf .list (.integer {}) {}, .noneF]) false none)
+    ∧
     isUnionTree s₁ = true ∧ leavesOk tm s₁ = true ∧ allDistinct (flatObjs tm s₁) = true
     ∧ isUnionTree s₂ = true ∧ leavesOk tm s₂ = true ∧ allDistinct (flatObjs tm s₂) = true
     ∧ leavesOk tm s₃ = true ∧ allDistinct (flatObjs tm s₃) = true
@@ -527,7 +560,8 @@ theorem flatten_example :
     ∧ elabField noRe tm false (annF s₁) = .ok (.field (.anyOf [.integer {}, .noneF, .string none none none]) false none)
     ∧ elabField noRe tm true (annF s₂) = elabField noRe tm false (annF s₁)
     ∧ elabField noRe tm true (annF s₃) = elabField noRe tm false (annF s₁) :=
-  ⟨rfl, rfl, rfl, rfl, rfl, rfl, rfl, rfl, rfl, rfl, rfl, rfl, rfl, rfl⟩
+  ⟨rfl, rfl, rfl, rfl, rfl, rfl, rfl, rfl, rfl, rfl, rfl, rfl, rfl, rfl, rfl, rfl, rfl, rfl, rfl, rfl, rfl,
+   rfl, rfl, rfl, rfl, rfl, rfl, rfl, rfl, rfl, rfl, rfl, rfl, rfl, rfl⟩
 
 /-- typing's de-duplication ("redundant arguments are skipped"): for a supported spelling `x` that is not a Field
     INSTANCE and not itself a union, `Union[x, x]` IS `x` - the annotation elaborates to the single field, not to an
@@ -538,6 +572,37 @@ theorem union_duplicate_collapses (x : Sp) (hs : supported tm x = true) (hu : un
   obtain ⟨o, hev, g⟩ := ev_good x hs
   have hm := unionMembers_of_gtli g.gt (g.nu hu)
   simp [elaborateAnn, ev, hev, hm, mkUnion, dedupObj, he o hev]
+
+/-! ### `_required` written out in the class body -/
+
+/-- Writing `_required = [...]` with exactly the names typedpy computes by itself (fields without default that are
+    neither listed in `_optional` nor annotated with a union that has a None member) gives the same class as not
+    writing it - for every class body whose fields elaborate, whatever their spellings. (`conflictOpt`: typedpy
+    refuses a name that is both optional and listed, "optional cannot override prior required"; it cannot happen
+    when the field names are distinct.) -/
+theorem explicit_required_equiv (O : Oracles) (c : ClassSp) (rs : List (String × FieldRes))
+    (h : elabFields O tm c.scope c.future c.fields = .ok rs) (hc : conflictOpt (requiredOf rs) rs = false)
+    (hd : conflictDropped (requiredOf rs) (optionalNames c.fields) rs = false) :
+    elabClass O tm { c with required := some (requiredOf rs) } = elabClass O tm { c with required := none } := by
+  simp only [elabClass, h, bindE_ok, finishClass_explicit _ rs hc hd]
+
+/-- `a: int; b: Optional[str]; c: int = 3`: `_required = ['a']` is the class typedpy computes; `_required = []` makes
+    `a` optional as well; a defaulted name listed in `_required` is dropped from it; `_required = ['a', 'b']` is
+    refused (ValueError: `b` is optional through its annotation), whereas `b: AnyOf[String, None]` may be listed. -/
+theorem explicit_required_example :
+    let fa : FieldSp := { name := "a", mode := .ann, ty := .builtin .int }
+    let fb : FieldSp := { name := "b", mode := .ann, ty := .optional (.builtin .str) }
+    let fb' : FieldSp := { name := "b", mode := .ann, ty := .anyOf fStr .noneLit }
+    let fc : FieldSp := { name := "c", mode := .ann, ty := .builtin .int, dflt := .eq (.int 3) 1 }
+    let K (req : Option (List String)) (b : FieldSp) : ClassSp := { future := false, fields := [fa, b, fc], required := req }
+    fieldNames (elabClass noRe tm (K none fb)) = some (["a", "b", "c"], ["a"])
+    ∧ elabClass noRe tm (K (some ["a"]) fb) = elabClass noRe tm (K none fb)
+    ∧ fieldNames (elabClass noRe tm (K (some []) fb)) = some (["a", "b", "c"], [])
+    ∧ fieldNames (elabClass noRe tm (K (some ["c", "a"]) fb)) = some (["a", "b", "c"], ["a"])
+    ∧ elabClass noRe tm (K (some ["a", "b"]) fb) = .error .valueErr
+    ∧ fieldNames (elabClass noRe tm (K (some ["a", "b"]) fb')) = some (["a", "b", "c"], ["a", "b"])
+    ∧ fieldNames (elabClass noRe tm (K none fb')) = some (["a", "b", "c"], ["a", "b"]) :=
+  ⟨rfl, rfl, rfl, rfl, rfl, rfl, rfl⟩
 
 /-! ### Structure classes as field types, two-element tuples -/
 
@@ -602,33 +667,37 @@ theorem tuple_pair_equiv :
   ⟨SameMeaning.tup .pep585 .call (SameMeaning.scalar .builtin .cls .int) (SameMeaning.scalar .builtin .cls .str),
    rfl, rfl, rfl, rfl, rfl, rfl, rfl, rfl, rfl, rfl, rfl, rfl, rfl, rfl⟩
 
-/-- finding `definition-error:tuple-items-structure-class` — `Tuple.__init__` converts Field classes and instances
-    only: `a: Tuple(items=Owner)` and `a: Tuple(items=[Integer, Owner])` raise TypeError at class definition, the
-    equivalent `Tuple[Owner]`, `tuple[Owner]`, `Tuple[Integer, Owner]` declare the field (and `Array(items=Owner)` works). -/
-theorem counterexample_tuple_items_struct :
+/-- former finding `definition-error:tuple-items-structure-class` (fixed in typedpy cdab473) — `Tuple(items=Owner)` and
+    `Tuple(items=[Integer, Owner])` used to raise TypeError (Tuple.__init__ converted Field classes and instances only);
+    they now declare the same field as `Tuple[Owner]`, `tuple[Owner]`, `Tuple[Integer, Owner]`, inside the proved region. -/
+theorem fixed_tuple_items_struct :
     SameMeaning (.sub .tuple owner) (.call .tuple owner)
     ∧ SameMeaning (.tupSub fInt owner) (.tupCall fInt owner)
-    ∧ documentedField (annF (.call .tuple owner)) = true ∧ documentedField (annF (.tupCall fInt owner)) = true
+    ∧ fieldSupported noRe tm false (annF (.call .tuple owner)) = true
+    ∧ fieldSupported noRe tm false (annF (.tupCall fInt owner)) = true
     ∧ elabField noRe tm false (annF (.sub .tuple owner)) = .ok (.field (.tupleOf ownerD false) true none)
     ∧ elabField noRe tm false (annF (.pep585 .tuple owner)) = .ok (.field (.tupleOf ownerD false) true none)
-    ∧ elabField noRe tm false (annF (.call .tuple owner)) = .error .typeErr
+    ∧ elabField noRe tm false (annF (.call .tuple owner)) = .ok (.field (.tupleOf ownerD false) true none)
     ∧ elabField noRe tm false (annF (.tupSub fInt owner)) = .ok (.field (.tuplePos [.integer {}, ownerD] false) true none)
-    ∧ elabField noRe tm false (annF (.tupCall fInt owner)) = .error .typeErr
+    ∧ elabField noRe tm false (annF (.tupCall fInt owner)) = .ok (.field (.tuplePos [.integer {}, ownerD] false) true none)
     ∧ elabField noRe tm false (annF (.call .list owner)) = .ok (.field (.seqOf .list ownerD {}) true none) :=
   ⟨SameMeaning.coll .sub .call .tuple (SameMeaning.scls ownerD 5 5),
    SameMeaning.tup .sub .call (SameMeaning.scalar .cls .cls .int) (SameMeaning.scls ownerD 5 5),
    rfl, rfl, rfl, rfl, rfl, rfl, rfl, rfl⟩
 
-/-- finding `definition-error:pep604-structure-first-nested` — a PEP 604 union whose FIRST member is a Structure class,
-    used as an argument of a typedpy field (`Array[Owner | None]`, `AnyOf[Owner | int, String]`, `Map[String, Owner | None]`),
-    makes `FieldMeta.__getitem__` recurse forever (RecursionError at class definition); the same union as an annotation
-    (`a: Owner | None`), inside a builtin generic (`list[Owner | None]`) or written `Optional[Owner]` works. -/
-theorem counterexample_struct_first_nested :
+/-- former finding `definition-error:pep604-structure-first-nested` (fixed in typedpy 4d54fb6) — a PEP 604 union whose
+    FIRST member is a Structure class, used as an argument of a typedpy field (`Array[Owner | None]`,
+    `AnyOf[Owner | int, String]`, `Map[String, Owner | None]`), used to raise RecursionError at class definition; it now
+    declares the same field as `Array[Optional[Owner]]` / `list[Owner | None]`, and lies in the proved region. -/
+theorem fixed_struct_first_nested :
     SameMeaning (.sub .list (.pipe owner .noneLit)) (.sub .list (.optional owner))
-    ∧ documentedField (annF (.sub .list (.pipe owner .noneLit))) = true
-    ∧ elabField noRe tm false (annF (.sub .list (.pipe owner .noneLit))) = .error (.other "RecursionError")
-    ∧ elabField noRe tm false (annF (.anyOf (.pipe owner (.builtin .int)) fStr)) = .error (.other "RecursionError")
-    ∧ elabField noRe tm false (annF (.mapSub fStr (.pipe owner .noneLit))) = .error (.other "RecursionError")
+    ∧ fieldSupported noRe tm false (annF (.sub .list (.pipe owner .noneLit))) = true
+    ∧ elabField noRe tm false (annF (.sub .list (.pipe owner .noneLit)))
+        = .ok (.field (.seqOf .list (.anyOf [ownerD, .noneF]) {}) true none)
+    ∧ elabField noRe tm false (annF (.anyOf (.pipe owner (.builtin .int)) fStr))
+        = .ok (.field (.anyOf [.anyOf [ownerD, .integer {}], .string none none none]) true none)
+    ∧ elabField noRe tm false (annF (.mapSub fStr (.pipe owner .noneLit)))
+        = .ok (.field (.mapOf (.string none none none) (.anyOf [ownerD, .noneF]) {}) true none)
     ∧ elabField noRe tm false (annF (.sub .list (.optional owner)))
         = .ok (.field (.seqOf .list (.anyOf [ownerD, .noneF]) {}) true none)
     ∧ elabField noRe tm false (annF (.pep585 .list (.pipe owner .noneLit)))
